@@ -121,6 +121,55 @@ func checkC09(c *Ctx) {
 	c.note("es_obligations", n)
 	c.checkTailCallShape()
 	c.checkLoopScopeDepth("ES-S")
+	c.checkTailArity("C09-ARITY")
+}
+
+// checkTailArity: the tail self-call jumps past CallFunction, which is where an
+// ordinary call has its argument count compared with the function's arity. The
+// instruction that prepares the jump must make the same comparison.
+func (c *Ctx) checkTailArity(rule string) {
+	prep := c.mustFn(rule, "PrepareCallInstr.execute")
+	callF := c.mustFn(rule, "Zlisp.CallFunction")
+	nargsF := c.field("SexpFunction", "nargs")
+	lazyPrep := c.fn("Zlisp.prepareLazyCallArgs")
+	if prep == nil || callF == nil || nargsF == nil || lazyPrep == nil {
+		return
+	}
+	arityTests := func(f *ssa.Function) []*ssa.BinOp {
+		var out []*ssa.BinOp
+		eachInstr(f, func(b *ssa.BasicBlock, i int, in ssa.Instruction) {
+			bo, ok := in.(*ssa.BinOp)
+			if !ok || (bo.Op != token.NEQ && bo.Op != token.EQL) {
+				return
+			}
+			_, lx := loadOfField(bo.X, nargsF)
+			_, ly := loadOfField(bo.Y, nargsF)
+			if !lx && !ly {
+				return
+			}
+			// the mismatch side returns an error
+			cond, t, e := condBranch(b)
+			if cond != ssa.Value(bo) {
+				return
+			}
+			mismatch := t
+			if bo.Op == token.EQL {
+				mismatch = e
+			}
+			if allReturnsError(f, mismatch) {
+				out = append(out, bo)
+			}
+		})
+		return out
+	}
+	ref := arityTests(callF)
+	c.check(len(ref) >= 1, rule, "Zlisp.CallFunction", "ordinary call checks the arity", callF.Pos(),
+		"CallFunction compares the argument count with the function's arity and returns an error on mismatch", "CallFunction no longer rejects a wrong argument count")
+	sites := callsOf(prep, lazyPrep)
+	got := arityTests(prep)
+	c.check(len(sites) > 0 && len(got) >= len(sites), rule, "PrepareCallInstr.execute", "tail call checks the arity like an ordinary call", prep.Pos(),
+		fmt.Sprintf("each of the %d arms that prepare a compiled function's arguments also compares their number with the function's arity", len(sites)),
+		fmt.Sprintf("%d arms prepare the arguments of a compiled function for the tail jump but only %d compare their number with the function's arity: a tail self-call with the wrong number of arguments binds the wrong values (and can loop for ever) where the ordinary call raises an error", len(sites), len(got)))
 }
 
 // checkLoopScopeDepth: the Loop record remembers gen.scopes as it was before the loop's own scope was counted.
